@@ -10,8 +10,8 @@ def fieldsOK : FieldL → Nat → Bool
     !a.ignore && (if a.rm != .no then !a.r.has v else a.r.has v && isPacked t v) && fieldsOK fs v
 
 mutual
-/-- sanity of the layout inputs: a struct without fields is zero sized; an enum whose variants have no
-    fields consists of its tag -/
+/- sanity of the descriptor inputs: a struct without fields is zero sized; an enum whose variants have no
+   fields consists of its tag; removed fields have closed ranges -/
 def wfLay : Ty → Bool
   | .arr _ t => wfLay t
   | .wrap _ t => wfLay t
@@ -24,7 +24,9 @@ def wfLayL : TyL → Bool
   | .cons t ts => wfLay t && wfLayL ts
 def wfLayF : FieldL → Bool
   | .nil => true
-  | .cons _ t _ fs => wfLay t && wfLayF fs
+  | .cons a t _ fs =>
+    -- (the derive macro enforces/documents: a `Removed`/`AbiRemoved` field carries a closed version range)
+    wfLay t && (if a.rm != .no then decide (a.r.hi < u32Max) else true) && wfLayF fs
 def wfLayV : VariantL → Bool
   | .nil => true
   | .cons _ _ _ fs vs => wfLayF fs && wfLayV vs
@@ -94,5 +96,513 @@ theorem fieldsOK_of_struct (v : Nat) (hv : v ≤ u32Max) : ∀ (fs : FieldL),
       simp only [hrm, Bool.false_and] at hpk
       simp at hpk
       simp [hh, hpk]
+
+
+theorem packed_prim (p : Prim) (v : Nat) (x : V) (mem : Bytes) (wv : V) (bs : Bytes)
+    (hp : isPacked (.prim p) v = true) (hm : MemOK (.prim p) x mem)
+    (hproj : proj (.prim p) v x = .ok wv) (henc : enc (saveWire (.prim p) v) wv = some bs) : mem = bs := by
+  simp only [proj, Except.ok.injEq] at hproj
+  subst hproj
+  simp only [saveWire] at henc
+  simp only [isPacked] at hp
+  cases p <;> cases x <;>
+    simp_all [MemOK, Prim.wire, Prim.wireWidth, Prim.memSize, Prim.packed, enc, encProd]
+  all_goals (first | (cases ‹VL› <;> simp_all [MemOK, enc, encProd]) | skip)
+
+theorem allcat_eq {P : V → Bytes → Prop} {f : V → Except SaveFail V} {w : W}
+    (h : ∀ x mem wv bs, P x mem → f x = .ok wv → enc w wv = some bs → mem = bs) :
+    ∀ (l : VL) (mem : Bytes) (wl : VL) (bs : Bytes),
+      AllCat P l mem → mapMVL f l = .ok wl → encAll w wl = some bs → mem = bs
+  | .nil, mem, wl, bs, ha, hm, he => by
+    simp only [AllCat] at ha
+    simp only [mapMVL, Except.ok.injEq] at hm
+    subst hm
+    simp only [encAll, Option.some.injEq] at he
+    rw [ha, ← he]
+  | .cons x xs, mem, wl, bs, ha, hm, he => by
+    simp only [AllCat] at ha
+    obtain ⟨a, b, hab, hpa, hrest⟩ := ha
+    simp only [mapMVL] at hm
+    cases hfx : f x with
+    | error e => simp [hfx] at hm
+    | ok wx =>
+      cases hfs : mapMVL f xs with
+      | error e => simp [hfx, hfs] at hm
+      | ok wxs =>
+        simp only [hfx, hfs, Except.ok.injEq] at hm
+        subst hm
+        simp only [encAll] at he
+        obtain ⟨b1, b2, h1, h2, rfl⟩ := cat2_some he
+        have e1 := h x a wx b1 hpa hfx h1
+        have e2 := allcat_eq h xs b wxs b2 hrest hfs h2
+        rw [hab, e1, e2]
+
+theorem mapMVL_length {f : V → Except SaveFail V} : ∀ (l wl : VL), mapMVL f l = .ok wl → wl.length = l.length
+  | .nil, wl, h => by simp only [mapMVL, Except.ok.injEq] at h; subst h; rfl
+  | .cons x xs, wl, h => by
+    simp only [mapMVL] at h
+    cases hfx : f x with
+    | error e => simp [hfx] at h
+    | ok wx =>
+      cases hfs : mapMVL f xs with
+      | error e => simp [hfx, hfs] at h
+      | ok wxs =>
+        simp only [hfx, hfs, Except.ok.injEq] at h
+        subst h
+        simp [VL.length, mapMVL_length xs wxs hfs]
+
+/-- without explicit discriminant values the stored discriminant of variant `i` is `i` -/
+theorem discrOf_index : ∀ (vs : VariantL) (i next : Nat) (l : VL) (mem : Bytes),
+    anyExplicitDiscr vs = false → MemOKVariant vs i l mem → discrOf vs i next = next + i
+  | .nil, i, next, l, mem, _, hm => by simp [MemOKVariant] at hm
+  | .cons _ _ d _ vs, 0, next, l, mem, hd, _ => by
+    simp only [anyExplicitDiscr, Bool.or_eq_false_iff] at hd
+    have : d = none := by cases d <;> simp_all
+    subst this
+    simp [discrOf]
+  | .cons _ _ d _ vs, i+1, next, l, mem, hd, hm => by
+    simp only [anyExplicitDiscr, Bool.or_eq_false_iff] at hd
+    have : d = none := by cases d <;> simp_all
+    subst this
+    simp only [MemOKVariant] at hm
+    simp only [discrOf, Option.getD_none]
+    rw [discrOf_index vs i (next + 1) l mem hd.2 hm]
+    omega
+
+/-- enum conditions of `isPacked` give `fieldsOK` for the fields of every variant -/
+theorem fieldsOK_of_enum (v : Nat) (hv : v ≤ u32Max) : ∀ (fs : FieldL),
+    anyIgnore fs = false → anyClosedLive fs = false →
+    v ≥ minSafeFieldsEnum fs → enumFieldsPacked fs v = true → rangesWf fs = true → fieldsOK fs v = true
+  | .nil, _, _, _, _, _ => by simp [fieldsOK]
+  | .cons a t as fs, hi, hc, hm, hp, hr => by
+    simp only [anyIgnore, Bool.or_eq_false_iff] at hi
+    simp only [anyClosedLive, Bool.or_eq_false_iff, Bool.and_eq_false_iff, decide_eq_false_iff_not] at hc
+    simp only [minSafeFieldsEnum] at hm
+    simp only [enumFieldsPacked, Bool.and_eq_true] at hp
+    simp only [rangesWf, Bool.and_eq_true] at hr
+    have ih := fieldsOK_of_enum v hv fs hi.2 hc.2 (by omega) hp.2 hr.2
+    simp only [fieldsOK, Bool.and_eq_true, ih, and_true, hi.1, Bool.not_false, true_and]
+    by_cases hrm : (a.rm != .no) = true
+    · simp only [hrm, if_true]
+      have hrw := hr.1
+      simp only [hrm, if_true, decide_eq_true_eq] at hrw
+      have := not_has_of_minSafe_closed (v := v) hrw (by omega)
+      simp [this]
+    · simp only [hrm]
+      have hrm' : a.rm = .no := by
+        cases h : a.rm <;> simp [h] at hrm ⊢
+      have hopen : ¬ a.r.hi < u32Max := by
+        rcases hc.1 with h | h
+        · simp [hrm'] at h
+        · exact h
+      have hh : a.r.has v = true := by
+        unfold VerRange.has
+        simp only [Bool.and_eq_true, decide_eq_true_eq]
+        have : a.r.minSafe ≥ a.r.lo := by simp [VerRange.minSafe]; omega
+        omega
+      have hpk := hp.1
+      simp only [hrm] at hpk
+      simp at hpk
+      simp [hh, hpk]
+
+
+theorem rangesWf_of_wfLayF : ∀ (fs : FieldL), wfLayF fs = true → rangesWf fs = true
+  | .nil, _ => by simp [rangesWf]
+  | .cons a t as fs, h => by
+    simp only [wfLayF, Bool.and_eq_true] at h
+    simp only [rangesWf, Bool.and_eq_true]
+    exact ⟨h.1.2, rangesWf_of_wfLayF fs h.2⟩
+
+theorem fieldSpans_cons_ne {a : FieldAttr} {t : Ty} {as : AsL} {fs : FieldL} {spans : List (Nat × Nat)}
+    (h : fieldSpans (.cons a t as fs) = some spans) : spans ≠ [] := by
+  intro hs; subst hs
+  simp only [fieldSpans] at h
+  split at h <;> simp at h
+
+theorem tupleSpans_cons_ne {o : Nat} {offs : List Nat} {t : Ty} {ts : TyL} {spans : List (Nat × Nat)}
+    (h : tupleSpans (o :: offs) (.cons t ts) = some spans) : spans ≠ [] := by
+  intro hs; subst hs
+  simp only [tupleSpans] at h
+  split at h <;> simp at h
+
+/-- in an enum none of whose variants has fields, a variant's body is empty -/
+theorem unit_variant_body (v : Nat) : ∀ (vs : VariantL) (i : Nat) (l wl : VL) (body : Bytes) (mem : Bytes),
+    anyFieldsV vs = false → MemOKVariant vs i l mem → projVariant vs v i l = .ok wl →
+    encAlt (saveVariants vs v) i (.tup wl) = some body → body = []
+  | .nil, i, l, wl, body, mem, _, hm, _, _ => by simp [MemOKVariant] at hm
+  | .cons nm r d fs vs, 0, l, wl, body, mem, hany, hm, hq, henc => by
+    simp only [anyFieldsV, Bool.or_eq_false_iff] at hany
+    cases fs with
+    | nil =>
+      simp only [MemOKVariant] at hm
+      cases l with
+      | nil =>
+        simp only [projVariant] at hq
+        split at hq
+        · simp only [projFields, Except.ok.injEq] at hq
+          subst hq
+          simp only [saveVariants, encAlt, saveFields, enc, encProd, Option.some.injEq] at henc
+          exact henc.symm
+        · cases hq
+      | cons _ _ => simp [MemOKFields] at hm
+    | cons _ _ _ _ => simp at hany
+  | .cons nm r d fs vs, i+1, l, wl, body, mem, hany, hm, hq, henc => by
+    simp only [anyFieldsV, Bool.or_eq_false_iff] at hany
+    simp only [MemOKVariant] at hm
+    simp only [projVariant] at hq
+    simp only [saveVariants, encAlt] at henc
+    exact unit_variant_body v vs i l wl body mem hany.2 hm hq henc
+
+mutual
+theorem packed_image (v : Nat) (hv : v ≤ u32Max) : ∀ (T : Ty) (x : V) (mem : Bytes) (wv : V) (bs : Bytes),
+    isPacked T v = true → d2Free T = true → wfLay T = true → MemOK T x mem → proj T v x = .ok wv →
+    enc (saveWire T v) wv = some bs → mem = bs
+  | .prim p, x, mem, wv, bs, hp, _, _, hm, hproj, henc => packed_prim p v x mem wv bs hp hm hproj henc
+  | .arr n t, x, mem, wv, bs, hp, hd, hw, hm, hproj, henc => by
+    cases x with
+    | tup l =>
+      simp only [isPacked] at hp
+      simp only [d2Free] at hd
+      simp only [wfLay] at hw
+      simp only [MemOK] at hm
+      simp only [proj] at hproj
+      cases hq : mapMVL (proj t v) l with
+      | error e => simp [hq, Except.map] at hproj
+      | ok wl =>
+        simp only [hq, Except.map, Except.ok.injEq] at hproj
+        subst hproj
+        simp only [saveWire, enc] at henc
+        split at henc
+        · exact allcat_eq (fun x mem wv bs hP hf he => packed_image v hv t x mem wv bs hp hd hw hP hf he) l mem wl bs hm hq henc
+        · cases henc
+    | _ => simp [MemOK] at hm
+  | .wrap c t, x, mem, wv, bs, hp, hd, hw, hm, hproj, henc => by
+    cases c with
+    | false => simp [isPacked] at hp
+    | true =>
+      simp only [isPacked] at hp
+      simp only [d2Free] at hd
+      simp only [wfLay] at hw
+      simp only [MemOK] at hm
+      simp only [proj] at hproj
+      simp only [saveWire] at henc
+      exact packed_image v hv t x mem wv bs hp hd hw hm hproj henc
+  | .tup lay offs ts, x, mem, wv, bs, hp, hd, hw, hm, hproj, henc => by
+    cases x with
+    | tup l =>
+      simp only [isPacked, Bool.and_eq_true] at hp
+      simp only [d2Free] at hd
+      simp only [wfLay, Bool.and_eq_true] at hw
+      simp only [MemOK] at hm
+      simp only [proj] at hproj
+      cases hq : projL ts v l with
+      | error e => simp [hq, Except.map] at hproj
+      | ok wl =>
+        simp only [hq, Except.map, Except.ok.injEq] at hproj
+        subst hproj
+        simp only [saveWire, enc] at henc
+        have hchain := hp.2
+        simp only [tupleChain] at hchain
+        cases hsp : tupleSpans offs ts with
+        | none => simp [hsp] at hchain
+        | some spans =>
+          simp only [hsp] at hchain
+          obtain ⟨imgs, hsl, hbs⟩ := packed_tup v hv ts offs l mem wl bs spans hp.1 hd hw.1 hsp hm.2 hq henc
+          cases ts with
+          | nil =>
+            -- no members: zero sized
+            have hz := hw.2
+            simp only [beq_iff_eq] at hz
+            have : mem = [] := by
+              have := hm.1; rw [hz] at this; exact List.eq_nil_of_length_eq_zero this
+            cases l with
+            | nil =>
+              simp only [projL, Except.ok.injEq] at hq
+              subst hq
+              simp only [saveWireL, encProd, Option.some.injEq] at henc
+              rw [this, ← henc]
+            | cons _ _ => simp [projL] at hq
+          | cons t0 ts0 =>
+            have hne : spans ≠ [] := by
+              cases offs with
+              | nil => simp [tupleSpans] at hsp
+              | cons o offs' => exact tupleSpans_cons_ne hsp
+            rw [hbs]
+            exact chain_concat mem lay.size hm.1 spans imgs hne hchain hsl
+    | _ => simp [MemOK] at hm
+  | .struct name repr lay fs, x, mem, wv, bs, hp, hd, hw, hm, hproj, henc => by
+    cases x with
+    | tup l =>
+      simp only [isPacked, Bool.and_eq_true, Bool.not_eq_true', decide_eq_true_eq] at hp
+      obtain ⟨⟨⟨⟨⟨hig, hur⟩, hcl⟩, hms⟩, hfp⟩, hchain⟩ := hp
+      simp only [d2Free] at hd
+      simp only [wfLay, Bool.and_eq_true] at hw
+      simp only [MemOK] at hm
+      simp only [proj] at hproj
+      cases hq : projFields fs v l with
+      | error e => simp [hq, Except.map] at hproj
+      | ok wl =>
+        simp only [hq, Except.map, Except.ok.injEq] at hproj
+        subst hproj
+        simp only [saveWire, enc] at henc
+        have hok := fieldsOK_of_struct v hv fs hig hur hcl hms hfp (rangesWf_of_wfLayF fs hw.1)
+        cases hsp : fieldSpans fs with
+        | none => simp [hsp] at hchain
+        | some spans =>
+          simp only [hsp] at hchain
+          obtain ⟨imgs, hsl, hbs⟩ := packed_fields v hv fs l mem wl bs spans hok hd hw.1 hsp hm.2 hq henc
+          cases fs with
+          | nil =>
+            have hz := hw.2
+            simp only [beq_iff_eq] at hz
+            have : mem = [] := by
+              have := hm.1; rw [hz] at this; exact List.eq_nil_of_length_eq_zero this
+            cases l with
+            | nil =>
+              simp only [projFields, Except.ok.injEq] at hq
+              subst hq
+              simp only [saveFields, encProd, Option.some.injEq] at henc
+              rw [this, ← henc]
+            | cons _ _ => simp [projFields] at hq
+          | cons a0 t0 as0 fs0 =>
+            have hne : spans ≠ [] := fieldSpans_cons_ne hsp
+            rw [hbs]
+            exact chain_concat mem lay.size hm.1 spans imgs hne hchain hsl
+    | _ => simp [MemOK] at hm
+  | .enum name repr lay vs, x, mem, wv, bs, hp, hd, hw, hm, hproj, henc => by
+    cases x with
+    | alt i xv =>
+      cases xv with
+      | tup l =>
+        simp only [isPacked, Bool.and_eq_true, Bool.not_eq_true', decide_eq_true_eq, Bool.or_eq_true] at hp
+        obtain ⟨⟨⟨⟨⟨⟨hex, hnd⟩, hig⟩, hcl⟩, hms⟩, hfp⟩, hchain⟩ := hp
+        simp only [d2Free, Bool.and_eq_true, Bool.or_eq_true, Bool.not_eq_true'] at hd
+        simp only [wfLay, Bool.and_eq_true, Bool.or_eq_true, beq_iff_eq] at hw
+        simp only [MemOK] at hm
+        obtain ⟨hlen, htag, hvar⟩ := hm
+        simp only [proj] at hproj
+        cases hq : projVariant vs v i l with
+        | error e => simp [hq, Except.map] at hproj
+        | ok wl =>
+          simp only [hq, Except.map, Except.ok.injEq] at hproj
+          subst hproj
+          simp only [saveWire, enc] at henc
+          split at henc
+          · next hi =>
+            obtain ⟨body, hbody, rfl⟩ := map_some' henc
+            have hdisc := discrOf_index vs i 0 l mem hnd hvar
+            simp only [Nat.zero_add] at hdisc
+            rw [hdisc] at htag
+            by_cases hany : anyFieldsV vs = true
+            · -- every variant has fields (d2Free): the variant's fields follow the tag and fill the enum
+              have hnu : anyUnitV vs = false := by
+                rcases hd.1 with h | h
+                · simp [hany] at h
+                · exact h
+              have hch : variantsChain (tagWidth repr vs.length) lay.size vs = true := by
+                rcases hchain with h | h
+                · simp [hany] at h
+                · exact h
+              have := packed_variant v hv (tagWidth repr vs.length) lay.size mem hlen vs i l wl body
+                hig hcl hms hfp hd.2 hw.1 hch hnu hvar hq hbody
+              rw [this, htag]
+            · -- no variant has fields: the enum is its tag
+              have hany' : anyFieldsV vs = false := by simpa using hany
+              have hsz : lay.size = tagWidth repr vs.length := by
+                rcases hw.2 with h | h
+                · simp [hany'] at h
+                · exact h
+              have hb : body = [] := unit_variant_body v vs i l wl body mem hany' hvar hq hbody
+              subst hb
+              have : slice mem 0 (tagWidth repr vs.length) = mem := by
+                unfold slice
+                simp only [List.drop_zero]
+                apply List.take_of_length_le
+                omega
+              rw [← this, htag]; simp
+          · cases henc
+      | _ => simp [MemOK] at hm
+    | _ => simp [MemOK] at hm
+  | .str _, _, _, _, _, hp, _, _, _, _, _ | .seq _ _, _, _, _, _, hp, _, _, _, _, _
+  | .map _ _, _, _, _, _, hp, _, _, _, _, _ | .opt _, _, _, _, _, hp, _, _, _, _, _
+  | .res _ _, _, _, _, _, hp, _, _, _, _, _ | .ip, _, _, _, _, hp, _, _, _, _, _
+  | .sock, _, _, _, _, hp, _, _, _, _, _ | .canary, _, _, _, _, hp, _, _, _, _, _
+  | .sysTime, _, _, _, _, hp, _, _, _, _, _ | .duration, _, _, _, _, hp, _, _, _, _, _
+  | .ioErr, _, _, _, _, hp, _, _, _, _, _ => by simp [isPacked] at hp
+theorem packed_fields (v : Nat) (hv : v ≤ u32Max) : ∀ (fs : FieldL) (l : VL) (mem : Bytes) (wl : VL) (bs : Bytes)
+    (spans : List (Nat × Nat)),
+    fieldsOK fs v = true → d2FreeF fs = true → wfLayF fs = true → fieldSpans fs = some spans →
+    MemOKFields fs l mem → projFields fs v l = .ok wl → encProd (saveFields fs v) wl = some bs →
+    ∃ imgs, SlicesOK mem spans imgs ∧ bs = imgs.flatten
+  | .nil, l, mem, wl, bs, spans, _, _, _, hsp, hm, hq, henc => by
+    cases l with
+    | nil =>
+      simp only [fieldSpans, Option.some.injEq] at hsp
+      subst hsp
+      simp only [projFields, Except.ok.injEq] at hq
+      subst hq
+      simp only [saveFields, encProd, Option.some.injEq] at henc
+      exact ⟨[], by simp [SlicesOK], by simp [← henc]⟩
+    | cons _ _ => simp [MemOKFields] at hm
+  | .cons a t as fs, l, mem, wl, bs, spans, hok, hd, hw, hsp, hm, hq, henc => by
+    cases l with
+    | nil => simp [MemOKFields] at hm
+    | cons x xs =>
+      simp only [fieldsOK, Bool.and_eq_true, Bool.not_eq_true'] at hok
+      obtain ⟨⟨hig, hcond⟩, hokr⟩ := hok
+      simp only [d2FreeF, Bool.and_eq_true] at hd
+      simp only [wfLayF, Bool.and_eq_true] at hw
+      simp only [MemOKFields] at hm
+      obtain ⟨hmx, hmr⟩ := hm
+      simp only [fieldSpans] at hsp
+      by_cases hrm : (a.rm != .no) = true
+      · -- removed: zero sized, absent from the wire at this version
+        simp only [hrm, if_true, Bool.not_eq_true'] at hcond
+        simp only [hrm, if_true] at hsp
+        cases hsr : fieldSpans fs with
+        | none => simp [hsr] at hsp
+        | some rest =>
+          simp only [hsr, Option.some.injEq] at hsp
+          subst hsp
+          simp only [projFields, hig, hcond, Bool.false_eq_true, if_false] at hq
+          simp only [saveFields, hig, hcond, Bool.false_eq_true, if_false] at henc
+          obtain ⟨imgs, hsl, hbs⟩ := packed_fields v hv fs xs mem wl bs rest hokr hd.2 hw.2 hsr hmr hq henc
+          exact ⟨[] :: imgs, by simp [SlicesOK, slice, hsl], by simp [hbs]⟩
+      · have hrm' : a.rm = .no := by
+          cases h : a.rm <;> simp [h] at hrm ⊢
+        simp only [hrm, Bool.false_eq_true, if_false, Bool.and_eq_true] at hcond
+        simp only [hrm, Bool.false_eq_true, if_false] at hsp
+        cases hms : memSize t with
+        | none => simp [hms] at hsp
+        | some sz =>
+          cases hsr : fieldSpans fs with
+          | none => simp [hms, hsr] at hsp
+          | some rest =>
+            simp only [hms, hsr, Option.some.injEq] at hsp
+            subst hsp
+            have hmx' : MemOK t x (slice mem a.off sz) := by
+              rcases hmx with h | ⟨sz', h1, h2⟩
+              · exact absurd hrm' h
+              · rw [hms] at h1; cases h1; exact h2
+            simp only [projFields, hig, Bool.false_eq_true, if_false, hcond.1, if_true, hrm'] at hq
+            cases hpx : proj t v x with
+            | error e => simp [hpx] at hq
+            | ok wx =>
+              cases hpr : projFields fs v xs with
+              | error e => simp [hpx, hpr] at hq
+              | ok wxs =>
+                simp only [hpx, hpr, Except.ok.injEq] at hq
+                subst hq
+                simp only [saveFields, hig, Bool.false_eq_true, if_false, hcond.1, if_true, encProd] at henc
+                obtain ⟨b1, b2, h1, h2, rfl⟩ := cat2_some henc
+                have e1 := packed_image v hv t x (slice mem a.off sz) wx b1 hcond.2 hd.1 hw.1.1 hmx' hpx h1
+                obtain ⟨imgs, hsl, hbs⟩ := packed_fields v hv fs xs mem wxs b2 rest hokr hd.2 hw.2 hsr hmr hpr h2
+                exact ⟨b1 :: imgs, by simp [SlicesOK, e1, hsl], by simp [hbs]⟩
+theorem packed_tup (v : Nat) (hv : v ≤ u32Max) : ∀ (ts : TyL) (offs : List Nat) (l : VL) (mem : Bytes) (wl : VL) (bs : Bytes)
+    (spans : List (Nat × Nat)),
+    allPackedL ts v = true → d2FreeL ts = true → wfLayL ts = true → tupleSpans offs ts = some spans →
+    MemOKTup offs ts l mem → projL ts v l = .ok wl → encProd (saveWireL ts v) wl = some bs →
+    ∃ imgs, SlicesOK mem spans imgs ∧ bs = imgs.flatten
+  | .nil, offs, l, mem, wl, bs, spans, _, _, _, hsp, hm, hq, henc => by
+    cases l with
+    | nil =>
+      simp only [tupleSpans, Option.some.injEq] at hsp
+      subst hsp
+      simp only [projL, Except.ok.injEq] at hq
+      subst hq
+      simp only [saveWireL, encProd, Option.some.injEq] at henc
+      exact ⟨[], by simp [SlicesOK], by simp [← henc]⟩
+    | cons _ _ => cases offs <;> simp [MemOKTup] at hm
+  | .cons t ts, offs, l, mem, wl, bs, spans, hp, hd, hw, hsp, hm, hq, henc => by
+    cases offs with
+    | nil => simp [tupleSpans] at hsp
+    | cons o offs' =>
+      cases l with
+      | nil => simp [MemOKTup] at hm
+      | cons x xs =>
+        simp only [allPackedL, Bool.and_eq_true] at hp
+        simp only [d2FreeL, Bool.and_eq_true] at hd
+        simp only [wfLayL, Bool.and_eq_true] at hw
+        simp only [MemOKTup] at hm
+        obtain ⟨⟨sz', hsz', hmx⟩, hmr⟩ := hm
+        simp only [tupleSpans] at hsp
+        cases hms : memSize t with
+        | none => simp [hms] at hsp
+        | some sz =>
+          cases hsr : tupleSpans offs' ts with
+          | none => simp [hms, hsr] at hsp
+          | some rest =>
+            simp only [hms, hsr, Option.some.injEq] at hsp
+            subst hsp
+            rw [hms] at hsz'; cases hsz'
+            simp only [projL] at hq
+            cases hpx : proj t v x with
+            | error e => simp [hpx] at hq
+            | ok wx =>
+              cases hpr : projL ts v xs with
+              | error e => simp [hpx, hpr] at hq
+              | ok wxs =>
+                simp only [hpx, hpr, Except.ok.injEq] at hq
+                subst hq
+                simp only [saveWireL, encProd] at henc
+                obtain ⟨b1, b2, h1, h2, rfl⟩ := cat2_some henc
+                have e1 := packed_image v hv t x (slice mem o sz') wx b1 hp.1 hd.1 hw.1 hmx hpx h1
+                obtain ⟨imgs, hsl, hbs⟩ := packed_tup v hv ts offs' xs mem wxs b2 rest hp.2 hd.2 hw.2 hsr hmr hpr h2
+                exact ⟨b1 :: imgs, by simp [SlicesOK, e1, hsl], by simp [hbs]⟩
+theorem packed_variant (v : Nat) (hv : v ≤ u32Max) (tagw size : Nat) (mem : Bytes) (hlen : mem.length = size) :
+    ∀ (vs : VariantL) (i : Nat) (l wl : VL) (body : Bytes),
+    anyIgnoreV vs = false → anyClosedLiveV vs = false → v ≥ minSafeVariants vs → variantsFieldsPacked vs v = true →
+    d2FreeV vs = true → wfLayV vs = true → variantsChain tagw size vs = true → anyUnitV vs = false →
+    MemOKVariant vs i l mem → projVariant vs v i l = .ok wl → encAlt (saveVariants vs v) i (.tup wl) = some body →
+    mem = slice mem 0 tagw ++ body
+  | .nil, i, l, wl, body, _, _, _, _, _, _, _, _, hm, _, _ => by simp [MemOKVariant] at hm
+  | .cons nm r d fs vs, 0, l, wl, body, hig, hcl, hms, hfp, hd, hw, hch, hnu, hm, hq, henc => by
+    simp only [anyIgnoreV, Bool.or_eq_false_iff] at hig
+    simp only [anyClosedLiveV, Bool.or_eq_false_iff] at hcl
+    simp only [minSafeVariants] at hms
+    simp only [variantsFieldsPacked, Bool.and_eq_true] at hfp
+    simp only [d2FreeV, Bool.and_eq_true] at hd
+    simp only [wfLayV, Bool.and_eq_true] at hw
+    simp only [MemOKVariant] at hm
+    simp only [projVariant] at hq
+    split at hq
+    · simp only [saveVariants, encAlt, enc] at henc
+      have hok := fieldsOK_of_enum v hv fs hig.1 hcl.1 (by omega) hfp.1 (rangesWf_of_wfLayF fs hw.1)
+      cases fs with
+      | nil => simp [anyUnitV] at hnu
+      | cons a0 t0 as0 fs0 =>
+        simp only [variantsChain, Bool.and_eq_true] at hch
+        have hch1 := hch.1
+        cases hsp : fieldSpans (.cons a0 t0 as0 fs0) with
+        | none => simp [hsp] at hch1
+        | some spans =>
+          simp only [hsp] at hch1
+          obtain ⟨imgs, hsl, hbs⟩ := packed_fields v hv (.cons a0 t0 as0 fs0) l mem wl body spans hok hd.1 hw.1 hsp hm hq henc
+          cases spans with
+          | nil => simp at hch1
+          | cons p rest =>
+            obtain ⟨o, s⟩ := p
+            simp only [Bool.and_eq_true, decide_eq_true_eq] at hch1
+            cases imgs with
+            | nil => simp [SlicesOK] at hsl
+            | cons img imgs' =>
+              simp only [SlicesOK] at hsl
+              rw [hbs]
+              exact chain_concat_from mem size tagw hlen o s rest img imgs' hch1.1 hch1.2 hsl.1 hsl.2
+    · cases hq
+  | .cons nm r d fs vs, i+1, l, wl, body, hig, hcl, hms, hfp, hd, hw, hch, hnu, hm, hq, henc => by
+    simp only [anyIgnoreV, Bool.or_eq_false_iff] at hig
+    simp only [anyClosedLiveV, Bool.or_eq_false_iff] at hcl
+    simp only [minSafeVariants] at hms
+    simp only [variantsFieldsPacked, Bool.and_eq_true] at hfp
+    simp only [d2FreeV, Bool.and_eq_true] at hd
+    simp only [wfLayV, Bool.and_eq_true] at hw
+    simp only [variantsChain, Bool.and_eq_true] at hch
+    simp only [anyUnitV, Bool.or_eq_false_iff] at hnu
+    simp only [MemOKVariant] at hm
+    simp only [projVariant] at hq
+    simp only [saveVariants, encAlt] at henc
+    exact packed_variant v hv tagw size mem hlen vs i l wl body hig.2 hcl.2 (by omega) hfp.2 hd.2 hw.2 hch.2 hnu.2 hm hq henc
+end
 
 end Sfv
